@@ -17,6 +17,182 @@ use futures::executor::block_on;
 use std::collections::{BTreeMap, BTreeSet};
 use verifgen::plain::*;
 
+// ---- `#[conjure_client]` clients whose `Accept` makes the server negotiate Smile (or JSON), reading the response by the
+// Content-Type the server declares
+use conjure_http::client::{AsyncDeserializeResponse, DeserializeResponse};
+use conjure_http::endpoint;
+
+/// K: 0 = Smile only, 1 = Smile preferred over JSON, 2 = JSON preferred over Smile, 3 = anything (first registered)
+pub enum Neg<const K: u8, const D: bool> {}
+
+fn neg_accept(k: u8) -> &'static str {
+    match k {
+        0 => "application/x-jackson-smile",
+        1 => "application/json;q=0.5, application/x-jackson-smile",
+        2 => "application/x-jackson-smile;q=0.1, application/json",
+        _ => "*/*",
+    }
+}
+fn neg_expected(k: u8) -> &'static str {
+    if k <= 1 { "smile" } else { "json" }
+}
+
+fn neg_decode<T: serde::de::DeserializeOwned>(status: http::StatusCode, ct: Option<http::HeaderValue>, body: &[u8], empty: Option<T>) -> Result<T, conjure_error::Error> {
+    if status == http::StatusCode::NO_CONTENT {
+        return empty.ok_or_else(|| conjure_error::Error::internal_safe("204 for a type with no empty value"));
+    }
+    match ct.as_ref().map(|v| v.as_bytes()) {
+        Some(b"application/x-jackson-smile") => conjure_serde::smile::client_from_slice(body).map_err(conjure_error::Error::internal),
+        Some(b"application/json") => conjure_serde::json::client_from_slice(body).map_err(conjure_error::Error::internal),
+        _ => Err(conjure_error::Error::internal_safe("invalid response Content-Type")),
+    }
+}
+
+impl<const K: u8, T, R> DeserializeResponse<T, R> for Neg<K, false>
+where
+    T: serde::de::DeserializeOwned,
+    R: Iterator<Item = Result<bytes::Bytes, conjure_error::Error>>,
+{
+    fn accept() -> Option<http::HeaderValue> {
+        Some(http::HeaderValue::from_static(neg_accept(K)))
+    }
+    fn deserialize(response: http::Response<R>) -> Result<T, conjure_error::Error> {
+        let (status, ct) = (response.status(), response.headers().get(http::header::CONTENT_TYPE).cloned());
+        let mut buf = vec![];
+        for c in response.into_body() {
+            buf.extend_from_slice(&c?);
+        }
+        neg_decode(status, ct, &buf, None)
+    }
+}
+impl<const K: u8, T, R> DeserializeResponse<T, R> for Neg<K, true>
+where
+    T: serde::de::DeserializeOwned + Default,
+    R: Iterator<Item = Result<bytes::Bytes, conjure_error::Error>>,
+{
+    fn accept() -> Option<http::HeaderValue> {
+        Some(http::HeaderValue::from_static(neg_accept(K)))
+    }
+    fn deserialize(response: http::Response<R>) -> Result<T, conjure_error::Error> {
+        let (status, ct) = (response.status(), response.headers().get(http::header::CONTENT_TYPE).cloned());
+        let mut buf = vec![];
+        for c in response.into_body() {
+            buf.extend_from_slice(&c?);
+        }
+        neg_decode(status, ct, &buf, Some(T::default()))
+    }
+}
+impl<const K: u8, T, R> AsyncDeserializeResponse<T, R> for Neg<K, false>
+where
+    T: serde::de::DeserializeOwned,
+    R: futures::Stream<Item = Result<bytes::Bytes, conjure_error::Error>> + Send,
+{
+    fn accept() -> Option<http::HeaderValue> {
+        Some(http::HeaderValue::from_static(neg_accept(K)))
+    }
+    async fn deserialize(response: http::Response<R>) -> Result<T, conjure_error::Error> {
+        use futures::TryStreamExt;
+        let (status, ct) = (response.status(), response.headers().get(http::header::CONTENT_TYPE).cloned());
+        let body = response.into_body();
+        futures::pin_mut!(body);
+        let mut buf = vec![];
+        while let Some(c) = body.try_next().await? {
+            buf.extend_from_slice(&c);
+        }
+        neg_decode(status, ct, &buf, None)
+    }
+}
+impl<const K: u8, T, R> AsyncDeserializeResponse<T, R> for Neg<K, true>
+where
+    T: serde::de::DeserializeOwned + Default,
+    R: futures::Stream<Item = Result<bytes::Bytes, conjure_error::Error>> + Send,
+{
+    fn accept() -> Option<http::HeaderValue> {
+        Some(http::HeaderValue::from_static(neg_accept(K)))
+    }
+    async fn deserialize(response: http::Response<R>) -> Result<T, conjure_error::Error> {
+        use futures::TryStreamExt;
+        let (status, ct) = (response.status(), response.headers().get(http::header::CONTENT_TYPE).cloned());
+        let body = response.into_body();
+        futures::pin_mut!(body);
+        let mut buf = vec![];
+        while let Some(c) = body.try_next().await? {
+            buf.extend_from_slice(&c);
+        }
+        neg_decode(status, ct, &buf, Some(T::default()))
+    }
+}
+
+macro_rules! neg_traits {
+    ($sync:ident, $asy:ident, $k:literal) => {
+        #[conjure_http::conjure_client]
+        trait $sync {
+            #[endpoint(method = POST, path = "/v/safeBody", accept = Neg<$k, false>)]
+            fn safe_body(&self, #[body] b: i32) -> Result<i32, conjure_error::Error>;
+            #[endpoint(method = POST, path = "/v/body", accept = Neg<$k, false>)]
+            fn body(&self, #[auth(cookie_name = "sess")] auth: &BearerToken, #[body] b: &Simple) -> Result<Simple, conjure_error::Error>;
+            #[endpoint(method = GET, path = "/v/dblRet", accept = Neg<$k, false>)]
+            fn dbl_ret(&self, #[query(name = "the-x")] x: &str) -> Result<Doubles, conjure_error::Error>;
+            #[endpoint(method = GET, path = "/v/listAliasRet", accept = Neg<$k, true>)]
+            fn list_alias_ret(&self, #[query(name = "n")] n: i32) -> Result<ListAlias, conjure_error::Error>;
+            #[endpoint(method = GET, path = "/v/optAliasRet", accept = Neg<$k, true>)]
+            fn opt_alias_ret(&self, #[query(name = "n")] n: i32) -> Result<OptStrAlias, conjure_error::Error>;
+            #[endpoint(method = GET, path = "/v/mapAliasRet", accept = Neg<$k, true>)]
+            fn map_alias_ret(&self, #[query(name = "n")] n: i32) -> Result<MapAlias, conjure_error::Error>;
+            #[endpoint(method = GET, path = "/v/mapRet", accept = Neg<$k, true>)]
+            fn map_ret(&self, #[query(name = "count")] n: i32, #[query(name = "ids", encoder = conjure_http::client::DisplaySeqEncoder)] ids: &[Uuid]) -> Result<BTreeMap<String, i32>, conjure_error::Error>;
+        }
+        #[conjure_http::conjure_client]
+        trait $asy {
+            #[endpoint(method = POST, path = "/v/safeBody", accept = Neg<$k, false>)]
+            async fn safe_body(&self, #[body] b: i32) -> Result<i32, conjure_error::Error>;
+            #[endpoint(method = POST, path = "/v/body", accept = Neg<$k, false>)]
+            async fn body(&self, #[auth(cookie_name = "sess")] auth: &BearerToken, #[body] b: &Simple) -> Result<Simple, conjure_error::Error>;
+            #[endpoint(method = GET, path = "/v/dblRet", accept = Neg<$k, false>)]
+            async fn dbl_ret(&self, #[query(name = "the-x")] x: &str) -> Result<Doubles, conjure_error::Error>;
+            #[endpoint(method = GET, path = "/v/listAliasRet", accept = Neg<$k, true>)]
+            async fn list_alias_ret(&self, #[query(name = "n")] n: i32) -> Result<ListAlias, conjure_error::Error>;
+            #[endpoint(method = GET, path = "/v/optAliasRet", accept = Neg<$k, true>)]
+            async fn opt_alias_ret(&self, #[query(name = "n")] n: i32) -> Result<OptStrAlias, conjure_error::Error>;
+            #[endpoint(method = GET, path = "/v/mapAliasRet", accept = Neg<$k, true>)]
+            async fn map_alias_ret(&self, #[query(name = "n")] n: i32) -> Result<MapAlias, conjure_error::Error>;
+            #[endpoint(method = GET, path = "/v/mapRet", accept = Neg<$k, true>)]
+            async fn map_ret(&self, #[query(name = "count")] n: i32, #[query(name = "ids", encoder = conjure_http::client::DisplaySeqEncoder)] ids: &[Uuid]) -> Result<BTreeMap<String, i32>, conjure_error::Error>;
+        }
+    };
+}
+neg_traits!(NegSmile, AsyncNegSmile, 0);
+neg_traits!(NegSmileFirst, AsyncNegSmileFirst, 1);
+neg_traits!(NegJsonFirst, AsyncNegJsonFirst, 2);
+neg_traits!(NegAny, AsyncNegAny, 3);
+
+/// one negotiated call per (flavour, Accept kind): `$method(args)` on a macro-derived client over the loopback
+macro_rules! neg_call {
+    ($run:expr, $rng:expr, $ret:expr, $name:expr, $coll:expr, $dflt:expr, $log:expr, $want:expr, $method:ident ( $($arg:expr),* ), $render:expr) => {{
+        for fl in ["sync", "async"] {
+            for k in 0u8..4 {
+                let c = LoopClient { chunk: [0usize, 1, 3, 7][$rng.below(4)], ..Default::default() };
+                *c.handler.ret.lock().unwrap() = $ret.clone();
+                let render = $render;
+                let out: Result<Outcome, String> = guarded(|| {
+                    let r = match (fl, k) {
+                        ("sync", 0) => NegSmileClient::new(c.clone()).$method($($arg),*),
+                        ("sync", 1) => NegSmileFirstClient::new(c.clone()).$method($($arg),*),
+                        ("sync", 2) => NegJsonFirstClient::new(c.clone()).$method($($arg),*),
+                        ("sync", _) => NegAnyClient::new(c.clone()).$method($($arg),*),
+                        (_, 0) => block_on(AsyncNegSmileClient::new(c.clone()).$method($($arg),*)),
+                        (_, 1) => block_on(AsyncNegSmileFirstClient::new(c.clone()).$method($($arg),*)),
+                        (_, 2) => block_on(AsyncNegJsonFirstClient::new(c.clone()).$method($($arg),*)),
+                        (_, _) => block_on(AsyncNegAnyClient::new(c.clone()).$method($($arg),*)),
+                    };
+                    r.map(render).map_err(|e| format!("{:?}", e.cause().to_string()))
+                });
+                $run.check_neg(fl, k, $name, $coll, $dflt, &c, out, $log.clone(), $want.clone());
+            }
+        }
+    }};
+}
+
 pub const RULE: &str = "non-trivial: some argument or the return value is outside [A-Za-z0-9] (reserved or non-ASCII characters, empty, NaN/infinite, absent optional, empty collection) or the call is refused";
 
 const STRS: [&str; 24] = ["", "a", "hello world", "a/b", "a?b=c&d#e", "100%", "%2F", "%zz", "+", "a+b c", "é", "漢字", "🙂", " lead", "trail ", "x\ty", "=", "&", "#frag", "..", ".", "a;b,c", "\"q\"", "{curly}"];
@@ -199,6 +375,40 @@ impl<'a> Run<'a> {
     }
 }
 
+impl<'a> Run<'a> {
+    /// a call of a `#[conjure_client]` method whose `Accept` is `neg_accept(k)`: the status and Content-Type of the
+    /// server's response against the model; handler invocation, arguments and returned value against the statement
+    #[allow(clippy::too_many_arguments)]
+    fn check_neg(&mut self, flavour: &str, k: u8, name: &str, collection: bool, is_default: bool, client: &LoopClient, out: Result<Outcome, String>, expect_log: String, expect_ret: String) {
+        let caps = client.captured.lock().unwrap().clone();
+        let calls = client.handler.calls();
+        let class = format!("{}-macro-negotiated:{}", flavour, name);
+        let op = format!("resp {} {} {}", neg_expected(k), if collection { "collection" } else { "std" }, is_default as u8);
+        let real = match caps.first() {
+            Some(c) => format!("{} {}", c.status.map(|s| s.to_string()).unwrap_or_else(|| "error".into()), c.response_ct.as_ref().map(|v| String::from_utf8_lossy(v).to_string()).unwrap_or_else(|| "none".into())),
+            None => "client-error".to_string(),
+        };
+        let note = format!("{} macro client, Accept: {} — {} -> {:?}", flavour, neg_accept(k), expect_log, out);
+        self.cs.push(&class, op, real, true, note);
+        let fail = |cs: &mut Cases, key: &str, what: String| cs.fail_last(&format!("{}:negotiated:{}", name, key), format!("{} [{} macro call, Accept: {}, {}]", what, flavour, neg_accept(k), expect_log));
+        match out {
+            Err(p) => fail(self.cs, "panic", format!("the call panicked: {}", p)),
+            Ok(Err(e)) => fail(self.cs, "call-failed", format!("the client call failed: {}; handler log {:?}; response {:?} {:?}", e, calls, caps.first().and_then(|c| c.status), caps.first().and_then(|c| c.response_ct.as_ref().map(|v| String::from_utf8_lossy(v).to_string())))),
+            Ok(Ok(ret)) => {
+                if caps.len() != 1 || caps[0].routed_to.as_deref() != Some(name) {
+                    fail(self.cs, "misrouted", format!("{} requests, routed to {:?}", caps.len(), caps.first().and_then(|c| c.routed_to.clone())));
+                } else if calls.len() != 1 {
+                    fail(self.cs, "handler-count", format!("the handler was invoked {} times: {:?}", calls.len(), calls));
+                } else if calls[0] != expect_log {
+                    fail(self.cs, "args-differ", format!("the handler saw different arguments: {}", calls[0]));
+                } else if ret != expect_ret {
+                    fail(self.cs, "return-differs", format!("the client returned {} but the handler returned {}", ret, expect_ret));
+                }
+            }
+        }
+    }
+}
+
 macro_rules! both {
     ($run:expr, $rng:expr, $ret:expr, |$c:ident, $fl:ident| $body:block) => {{
         for $fl in ["sync", "async"] {
@@ -282,7 +492,7 @@ pub fn cases(seed: u64, tier: Tier) -> Cases {
             let hu = UuidAlias(gen_uuid(&mut rng));
             let qd = gen_f64(&mut rng);
             let qb = rng.chance(1, 2);
-            let qsl = SafeLong::new(rng.range(-9007199254740991, 9007199254740991)).unwrap();
+            let qsl = SafeLong::new(rng.range(-9007199254740991, 9007199254740991)).unwrap_or_default();
             let qdt = if rng.chance(2, 3) { Some(gen_dt(&mut rng)) } else { None };
             let qbt = if rng.chance(1, 2) { Some(gen_token(&mut rng)) } else { None };
             let hc = if rng.chance(1, 2) { Some(ColorAlias(gen_color(&mut rng))) } else { None };
@@ -396,6 +606,18 @@ pub fn cases(seed: u64, tier: Tier) -> Cases {
                 let out = call!(fl, c, dbl_ret(x), |v: Doubles| format!("{:?}", v));
                 run.check(fl, "dblRet", Texts(vec![vec![plain(&x)]]), ("none", 0), "json", !x.is_finite() || x == 0.0, &c, out, log.clone(), format!("{:?}", want), false);
             });
+            // the same endpoints through `#[conjure_client]` clients that make the server negotiate Smile or JSON
+            let xt = String::from_utf8(plain(&x)).unwrap();
+            neg_call!(run, rng, r, "dblRet", false, false, log, format!("{:?}", want), dbl_ret(&xt), |v: Doubles| format!("{:?}", v));
+            let sb = gen_i32(&mut rng);
+            neg_call!(run, rng, r, "safeBody", false, false, format!("safeBody(safeBodyArg={:?})", sb), format!("{:?}", sb), safe_body(sb), |v: i32| format!("{:?}", v));
+            let (auth, b) = (gen_token(&mut rng), gen_simple(&mut rng));
+            neg_call!(run, rng, r, "body", false, false, format!("body(auth={:?}, body={:?})", auth.as_str(), b), format!("{:?}", b), body(&auth, &b), |v: Simple| format!("{:?}", v));
+            neg_call!(run, rng, r, "listAliasRet", true, r.list.is_empty(), format!("listAliasRet(n={:?})", k), format!("{:?}", ListAlias(r.list.clone())), list_alias_ret(k), |v: ListAlias| format!("{:?}", v));
+            neg_call!(run, rng, r, "optAliasRet", true, r.opt_str.is_none(), format!("optAliasRet(n={:?})", k), format!("{:?}", OptStrAlias(r.opt_str.clone())), opt_alias_ret(k), |v: OptStrAlias| format!("{:?}", v));
+            neg_call!(run, rng, r, "mapAliasRet", true, r.dmap.is_empty(), format!("mapAliasRet(n={:?})", k), format!("{:?}", MapAlias(r.dmap.clone())), map_alias_ret(k), |v: MapAlias| format!("{:?}", v));
+            let ids: Vec<Uuid> = (0..rng.below(3)).map(|_| gen_uuid(&mut rng)).collect();
+            neg_call!(run, rng, r, "mapRet", true, r.map.is_empty(), format!("mapRet(n={:?}, ids={:?})", k, ids), format!("{:?}", r.map), map_ret(k, &ids), |v: BTreeMap<String, i32>| format!("{:?}", v));
         }
     }
     cs
